@@ -351,6 +351,14 @@ pub fn run_scenario(wire: &[u8], ending: Ending, h3_side: usize, seed: u64) -> O
         raw::open_control(&mut n, raw_side, &[]);
     }
     let sp = sched.spawner.clone();
+    // how the application uses the stream: whole, split right after the head, or split late
+    // (after a few body pieces, or after the end of the body and before the trailers are asked for)
+    let (app_split, app_late) = match rng.below(6) {
+        0 | 1 | 2 => (false, None),
+        3 => (true, None),
+        4 => (true, Some(rng.usize(3))),
+        _ => (true, Some(apps::SPLIT_AFTER_BODY)),
+    };
     let actor;
     if h3_side == SERVER {
         let id = {
@@ -379,7 +387,8 @@ pub fn run_scenario(wire: &[u8], ending: Ending, h3_side: usize, seed: u64) -> O
                     body: vec![b"ok".to_vec()],
                     ..Default::default()
                 },
-                split: false,
+                split: app_split,
+                late_split: app_late,
                 ..Default::default()
             },
             ..Default::default()
@@ -405,7 +414,8 @@ pub fn run_scenario(wire: &[u8], ending: Ending, h3_side: usize, seed: u64) -> O
                     uri: "https://example.com/".into(),
                     ..Default::default()
                 },
-                split: false,
+                split: app_split,
+                late_split: app_late,
                 ..Default::default()
             }],
             ..Default::default()
@@ -413,8 +423,10 @@ pub fn run_scenario(wire: &[u8], ending: Ending, h3_side: usize, seed: u64) -> O
         sched.spawn("c:conn", apps::client_main::<Bytes>(net.clone(), copts, probe.clone(), sp));
     }
     let end = sched.run(400_000);
-    let evs = probe.events_of(&actor);
-    let open = probe.open().get(&actor).map(|(op, _)| *op);
+    // the receiving calls are made by the request's task or, once split, by its ":recv" task
+    let ractor = format!("{}:recv", actor);
+    let evs: Vec<Ev> = probe.events().into_iter().filter(|e| e.actor == actor || e.actor == ractor).collect();
+    let open = probe.open().get(&ractor).or(probe.open().get(&actor)).map(|(op, _)| *op);
     let n = lock(&net);
     let close_by_h3 = n.closed.as_ref().filter(|c| c.by == h3_side).map(|c| c.code);
     let req_id = if h3_side == SERVER { 0 } else { 0 };
